@@ -9,7 +9,7 @@
    the tag name "emph" as "em" (the `external` flag of hyperlinks is NOT erased any more:
    defect F10 is fixed by 8ee055e). *)
 From Pybtex Require Import Base.Prelude Base.PyChar Base.PyStr Model.RtTypes Model.RichText
-  Spec.Flat Spec.FlatOps Proofs.RichText Proofs.RichSlice Proofs.RichOps Proofs.RichEq Proofs.RichWf Proofs.RichObs.
+  Spec.Flat Spec.FlatOps Proofs.RichText Proofs.RichSlice Proofs.RichOps Proofs.RichEq Proofs.RichWf Proofs.RichObs Proofs.RichSplit.
 
 (* len(text) is the number of (character, markup) pairs of the rendering *)
 Theorem len_flat : forall t, rlen t = length (flat t).
@@ -177,6 +177,35 @@ Theorem endswith_flat_refuted : exists t p, suffix_of (map ACh p) (atoms (flat t
 Proof. exact endswith_complete_refuted. Qed.
 Print Assumptions endswith_flat_refuted.
 
+(* split: the pieces re-assemble -- for the delimiter regex (whose delimiters are pieces) they
+   concatenate to the text; for split() nothing but unprotected whitespace disappears (order,
+   markup, protected whitespace kept), for every keep_empty_parts value; Protected is never split;
+   every piece keeps the top-level markup.  Partial: where exactly the cuts fall is not claimed --
+   at part boundaries it deviates from str.split (finding F17s, refuted statement below); string
+   separators are left to the correspondence + oracle. *)
+Theorem split_flat_partial_delim : forall t keep ps, split_c t SepDelim keep = Ok ps ->
+  concat (map (fun p => erase (flat p)) ps) = erase (flat t).
+Proof. exact split_delim_content. Qed.
+Print Assumptions split_flat_partial_delim.
+
+Theorem split_flat_partial_ws : forall t keep ps, split_c t SepNone keep = Ok ps ->
+  concat (map (fun p => erase (flat p)) ps) = drop_ws (erase (flat t)).
+Proof. exact split_ws_content. Qed.
+Print Assumptions split_flat_partial_ws.
+
+Theorem split_never_inside_protected : forall ps sep keep, split_c (RProt ps) sep keep = Ok [RProt ps].
+Proof. exact split_protected. Qed.
+Print Assumptions split_never_inside_protected.
+
+Theorem split_pieces_keep_markup : forall t sep keep ps, is_multipart t = true -> split_c t sep keep = Ok ps ->
+  Forall (fun p => top_e p = top_e t) ps.
+Proof. exact split_pieces_top. Qed.
+Print Assumptions split_pieces_keep_markup.
+
+Theorem split_no_empty_piece_refuted : exists t ps, split_c t SepNone None = Ok ps /\ exists p, In p ps /\ rlen p = 0.
+Proof. exact split_no_empty_refuted. Qed.
+Print Assumptions split_no_empty_piece_refuted.
+
 (* equality: texts that compare equal render the same, == is reflexive *)
 Theorem eq_sound : forall a b, rt_eqb a b = true -> erase (flat a) = erase (flat b).
 Proof. exact eq_sound_lem. Qed.
@@ -242,3 +271,7 @@ Proof. vm_compute. split; [reflexivity|repeat constructor]. Qed.
 Example contains_example :
   rcontains (RText [RStr (s2l "Long cat!")]) (s2l "g c") = true /\ In (s2l "Long cat!") (leaves (RText [RStr (s2l "Long cat!")])).
 Proof. vm_compute. split; [reflexivity|now left]. Qed.
+Example split_example :
+  split_c (RText [RStr (s2l "a + "); RProt [RStr (s2l "b c")]]) SepNone None
+  = Ok [RText [RStr (s2l "a")]; RText [RStr (s2l "+")]; RText [RProt [RStr (s2l "b c")]]].
+Proof. vm_compute. reflexivity. Qed.
